@@ -2924,7 +2924,7 @@ class Color(Parameter):
     def _validate_allow_named(self, val, allow_named):
         if (val is None and self.allow_None):
             return
-        is_hex = re.match('^#?(([0-9a-fA-F]{2}){3}|([0-9a-fA-F]){3})$', val)
+        is_hex = re.match(r'^#?(([0-9a-fA-F]{2}){3}|([0-9a-fA-F]){3})\Z', val)
         if self.allow_named:
             if not is_hex and val.lower() not in self._named_colors:
                 raise ValueError(
